@@ -78,6 +78,17 @@ def own_quote(s):
     return "".join(out)
 
 
+def dap4_identifier(rng):
+    """an identifier starting with `dap4` (`dap4x`, `dap4_t1`): `_quote` passes its first 8 characters through unquoted,
+    which changes nothing for an identifier — inside the theorems' domain (`C07_quoted_names`, `RawNameOk.dap4`)"""
+    return "dap4" + "".join(rng.choice(IDENT) for _ in range(rng.randint(0, 6)))
+
+
+def dap4_outside(s):
+    """names starting with `dap4` other than identifiers: DAP4 path handling, outside the model"""
+    return s.startswith("dap4") and not all(c in IDENT + "dp" for c in s)
+
+
 def gen_raw_name(rng):
     """a name as a foreign server may spell it raw in a DDS: characters pydap must quote (blank, `.`, `&`, `(`, `]` ...),
     no `;`, no `[`, no `/`, no white space at either end (theorem C07_foreign: `RawNameOk`)"""
@@ -97,11 +108,13 @@ def gen_name(rng, used, plain=0.5, anc=()):
             s = rng.choice(anc)
         elif r < 0.12:
             s = rng.choice(KEYWORDS)
+        elif r < 0.15:
+            s = dap4_identifier(rng)
         elif rng.random() < plain:
             s = rng.choice("abcxyzABCXYZ_") + "".join(rng.choice(IDENT) for _ in range(n - 1))
         else:
             s = "".join(rng.choice(IDENT + QUOTE_NEEDED + QUOTE_NEEDED) for _ in range(n))
-        if s.startswith("dap4") or s in used:
+        if dap4_outside(s) or s in used:
             continue
         used.add(s)
         return s
@@ -503,10 +516,12 @@ def gen_foreign(rng, depth=1, in_grid=False):
                 s = rng.choice([k for k in KEYWORDS if ":" not in k])
             elif raw and r < 0.36:
                 s = gen_raw_name(rng)
+            elif r < 0.39:
+                s = dap4_identifier(rng)
             else:
                 s = rng.choice("abcxyzABCXYZ_") + "".join(rng.choice(IDENT + "%-~") for _ in range(rng.randint(0, 5)))
             q = own_quote(s)
-            if q not in used and not s.startswith("dap4"):
+            if q not in used and not dap4_outside(s):
                 used.add(q)
                 RAW[q] = s
                 return q
@@ -754,10 +769,12 @@ def gen_fds(rng):
                 s = rng.choice([k for k in KEYWORDS if ":" not in k])
             elif raw and r < 0.40:
                 s = gen_raw_name(rng)
+            elif r < 0.43:
+                s = dap4_identifier(rng)
             else:
                 s = "".join(rng.choice(IDENT + DIM_EXTRA) for _ in range(rng.randint(1, 5)))
             q = own_quote(s)
-            if q not in used and "dap4" not in s.lower():
+            if q not in used and not dap4_outside(s):
                 used.add(q)
                 RAW[q] = s
                 return q
